@@ -18,7 +18,7 @@ from lib.common import gz, glist, gfloat, gbool
 from lib import pins, families
 
 LEVEL = "proof"
-RULE = ("WCS of 1..4 pixel axes (integer-affine, exact); boxes integer / fractional / zero-width / offset; fill in {default NaN, NaN, "
+RULE = ("WCS of 1..4 pixel axes (integer-affine, exact); boxes integer / fractional / zero-width / offset; fill in {default NaN, NaN, 0.0, int 0, 1e-300, "
         "+-inf, finite}; with_bounding_box in {default, True, False}; per-axis coordinate classes {inside, =lo, =hi, nextafter(lo,-inf), "
         "nextafter(hi,+inf), far, NaN, +inf} — full product for dim<=3, sampled for dim 4; scalar, 1-d, n-d and broadcast inputs. "
         "non-trivial = at least one axis on an edge or one ulp from it; distinct = (wcs, box, fill, flag, point)")
@@ -89,7 +89,7 @@ def run(ctx):
         for combo in combos:
             pt = [v for _, v in combo]
             tags = [t for t, _ in combo]
-            fill = rng.choice([None, None, math.nan, math.inf, -math.inf, -999.25])
+            fill = rng.choice([None, None, math.nan, math.inf, -math.inf, -999.25, 0.0, 0, 1e-300])   # (not -0.0: the sign of a zero fill is not kept by astropy and not claimed)
             wb = rng.choice([None, None, True, False])
             kw = {}
             if fill is not None:
